@@ -1294,6 +1294,9 @@ func init() {
 		},
 		build: func(dir string, l layT, sender bool) {
 			t := stream.V17stOpen(dir, l.NF, sender)
+			if sender {
+				t.SkipPartIDs(senderPartIDSkip(l))
+			}
 			t.Write(streamRows(l, sender))
 			t.Flush()
 			t.Close()
